@@ -58,6 +58,8 @@ REACH = {"default_inode": TAR_WL, "default_dev": TAR_WL, "decode_table": {"pax"}
          "crc16init": {"lha"}, "crc16tbl": {"lha"}, "lst": {"disk", "diskold"}, "can_dupfd_cloexec": {"diskold"},
          "dos_initialised": {"wrzip", "write"}, "dos_max_unix": {"wrzip", "write"}, "dos_min_unix": {"wrzip", "write"},
          "str": {"version"}}
+# statics whose value can reach a handle's results (debug_index, can_dupfd_cloexec, dos_* cannot: same values / never read back)
+FLOWS = {"default_inode", "default_dev", "decode_table", "crc16init", "crc16tbl", "lst", "str"}
 # first-use races exist once per process: repeat those runs
 REPEAT_FIRST_USE = {"lha": 3, "zip-write": 3, "tar-first-use": 3}      # thorough tier only
 
@@ -199,7 +201,11 @@ def evaluate(rep, h, plan, table, cls, cov, repeat=None):
                 unexplained = []
                 for w in sorted(set(b[0] for b in bad)):
                     txt = "per-thread digests differ from the sequential run: " + "; ".join(b[1] for b in bad if b[0] == w)[:160]
-                    gs = [g for g in globs if w in REACH.get(g, wset)]
+                    gs = [g for g in globs if g in FLOWS and w in REACH[g]]
+                    if "default_inode" in gs:
+                        gs = [g for g in gs if g in ("default_inode", "default_dev")]
+                    if not gs:          # statics this file knows nothing about (new ones)
+                        gs = [g for g in globs if g not in REACH]
                     for g in gs:
                         if txt not in seen[g]["notes"] and len(seen[g]["notes"]) < 3:
                             seen[g]["notes"].append(txt)
